@@ -33,6 +33,9 @@ Definition decode_linput (v : val) : option linput :=
   (* tag 7: Record objects that have already been through another converter (cached, then extended by a merge): the
      constructor must judge them by their current contents, i.e. exactly as Converter(records) *)
   | VList [VInt 7; x] => option_map LRecords (as_records x)
+  (* tag 8: from_rdflib(graph) / from_rdflib(graph.namespace_manager): the prefix map is what graph.namespaces() lists (read by the
+     harness before the call) *)
+  | VList [VInt 8; x] => option_map LPrefixMap (as_list_of as_pair_str x)
   | _ => None
   end.
 Definition decode_lcase (v : val) : option lcase :=
